@@ -319,7 +319,19 @@ def r11_3(rep, M, E, rid):
         rep.violation(rid, "_system_to_spglib_description", "does not describe self._analyzed_system", M.where(SA + "._system_to_spglib_description"))
     ss = SA + ".set_system"
     if "system" in E.mut[ss]:
-        rep.violation(rid, "set_system: input", f"the caller's structure is mutated: {E.why(ss, 'system')[:2]}", M.where(ss))
+        # not a clause of this property: the padded cell differs from the caller's only in vacuum, which the statement quantifies over, and the analyzer reads
+        # nothing but pbc from the original afterwards (checked below); reported as a side observation, not as a violation
+        meths = [f for f in M.cls(SA).body if isinstance(f, ast.FunctionDef) and f.name != "set_system"]
+        loads = [x for f in meths for x in ast.walk(f) if isinstance(x, ast.Attribute) and x.attr == "_original_system" and isinstance(x.ctx, ast.Load)]
+        pbc_only = {id(p.func.value) for f in meths for p in ast.walk(f) if isinstance(p, ast.Call) and isinstance(p.func, ast.Attribute)
+                    and p.func.attr == "get_pbc" and isinstance(p.func.value, ast.Attribute) and p.func.value.attr == "_original_system"}
+        uses = sorted({M.where(SA) for x in loads if id(x) not in pbc_only})
+        if all(id(x) in pbc_only for x in loads):
+            rep.note(f"{rid}: set_system pads the caller's structure in place ({E.why(ss, 'system')[:1]}): the caller's cell changes, the analysis does not "
+                     "(only get_pbc() is read from the original afterwards) - outside the statement of this property")
+            rep.ok(rid, "set_system pads the caller's structure in place; only its pbc is read afterwards")
+        else:
+            rep.violation(rid, "set_system: input", f"the caller's structure is mutated and read again afterwards ({sorted(uses)}): {E.why(ss, 'system')[:2]}", M.where(ss))
     else:
         rep.ok(rid, "set_system pads a copy, the caller's structure is untouched")
     fn = M.func(ss)
